@@ -72,6 +72,7 @@ func (c *SubscriptionManager) AddSubscription(remoteDevice api.DeviceRemoteInter
 			return fmt.Errorf("requested subscription is already present")
 		}
 	}
+	verifYield("AddSubscription.checked")
 
 	c.subscriptionEntries = append(c.subscriptionEntries, subscriptionEntry)
 
@@ -138,6 +139,7 @@ func (c *SubscriptionManager) RemoveSubscription(data model.SubscriptionManageme
 	if len(newSubscriptionEntries) == len(c.subscriptionEntries) {
 		return errors.New("could not find requested SubscriptionId to be removed")
 	}
+	verifYield("RemoveSubscription.filtered")
 
 	c.subscriptionEntries = newSubscriptionEntries
 
